@@ -126,6 +126,13 @@ func (q *qLogFile) seekTS(
 	start := int64(0)
 	// End of the search interval (position in the file).
 	end := fileInfo.Size()
+	if end == 0 {
+		// There are no records in an empty file, so any timestamp is beyond
+		// it.  Report it the same way as for a timestamp preceding the first
+		// record, so that the search continues in the older file, if any.
+		return 0, 0, errTSTooEarly
+	}
+
 	// Probe is the approximate index of the line we'll try to check.
 	probe := (end - start) / 2
 
